@@ -361,6 +361,14 @@ pub fn fault_events(seed: u64, thorough: bool, dir: &str) -> Vec<Value> {
         sem("P.nzval extra entry", "Struct", &|x| { x["P"]["nzval"].as_array_mut().unwrap().push(json!(1.0)); });
         sem("A.m too large", "Dims", &|x| { let m = x["A"]["m"].as_u64().unwrap(); x["A"]["m"] = json!(m + 1); });
         sem("P.n too large", "Struct", &|x| { let n = x["P"]["n"].as_u64().unwrap(); x["P"]["n"] = json!(n + 1); });
+        // every declared dimension moved on its own, by little and by a lot, in both directions
+        for (mat, key) in [("P", "m"), ("P", "n"), ("A", "m"), ("A", "n")] {
+            let cur = v[mat][key].as_u64().unwrap();
+            for nv in [cur + 1, cur + 2, cur + 4, cur + 1000].into_iter().chain(if cur > 0 { vec![cur - 1, 0] } else { vec![] }) {
+                if nv == cur { continue; }
+                sem(&format!("{}.{} {} -> {}", mat, key, cur, nv), "any", &|x| { x[mat][key] = json!(nv); });
+            }
+        }
         sem("q one shorter", "Dims", &|x| { x["q"].as_array_mut().unwrap().pop(); });
         sem("b one longer", "Dims", &|x| { x["b"].as_array_mut().unwrap().push(json!(0.5)); });
         sem("cone dimension changed", "Dims", &|x| { let c = x["cones"].as_array_mut().unwrap(); c.push(json!({"NonnegativeConeT": 2})); });
